@@ -32,6 +32,7 @@ POOL = [  # (pattern, matching line per language or None, fields)
     ("zip {NUMBER:a}", "zip 9", ["a"]),
     ("{NUMBER:n} {TEXT:w}", "10 btc", ["n", "w"]),
     ("{NUMBER:n} voucher", "5 voucher", ["n"]),
+    ("{TEXT:w} {NUMBER:n}", "btc 10", ["w", "n"]),
 ]
 OTHER_LINES = ["1 + 2", "10 usd to eur", "5 km to m", "3 foo", "foo", "bar", "12 baz", "2 days", "x = 5", "zip zip 2", "8 foo 2 + 1", "(7 foo) * 2",
                "5 voucher 10 btc", "7 foo 10 btc", "3 eth 10 btc", "10 btc 5 voucher", "2 btc 3 btc"]
@@ -105,6 +106,8 @@ def curated_histories(rng):
             out.append([when, other] + ex)
             out.append([other, when] + ex)
             out.append([when, other, dele("r1"), when] + ex)
+            two = dict(when, patterns=["{TEXT:w} {NUMBER:n}", "{NUMBER:n} {TEXT:w}"], name="r3")
+            out.append([two, other] + [{"op": "exec", "lang": "en", "text": t} for t in (f"pack 3 {word}", f"pack 2 {word} + 1", f"{word} 7 pack", f"5 voucher 1 {word}")])
             out.append([when, other] + ex[:2] + [dele("r2")] + ex + [other] + ex)
     return out
 
@@ -201,6 +204,7 @@ def run(ctx, model_ok):
     cfg = C.json.load(open(C.REPO + "/src/json/config.json", encoding="utf-8"))
     builtin = {f["name"] for f in cfg["types"]}
     two_rule_effects(ctx)
+    multi_pattern_effects(ctx)
     hist = curated_histories(rng) + [gen_history(rng, rng.randint(5, 60)) for _ in range(ctx.n(120, 2500))]
     now = C.run_impl([{"op": "now"}])[0]
     for hi, H in enumerate(hist):
@@ -332,6 +336,24 @@ def two_rule_effects(ctx):
                 ctx.seen(("two-rule", C.json.dumps(pre), text), True)
                 if got != want:
                     ctx.oracle_fail({"class": "effect:two-rules", "what": f"with both rules registered '{text}' evaluates to {got}, every match rewritten gives {want}", "ops": ops + [{"op": "reset"}]})
+
+
+def multi_pattern_effects(ctx):
+    """a rule with several patterns: when the match of an earlier pattern is declined, the later patterns are still tried"""
+    for word, v in (("btc", 1000), ("eth", 42)):
+        for pats in (["{TEXT:w} {NUMBER:n}", "{NUMBER:n} {TEXT:w}"], ["{NUMBER:n} {TEXT:w}", "{TEXT:w} {NUMBER:n}"]):
+            rule = {"op": "rule_add", "lang": "en", "name": "r1", "kind": "when", "patterns": pats, "field": "w", "word": word, "v": v}
+            for text, want in ((f"pack 3 {word}", float(v)), (f"pack 2 {word} + 1", float(v) + 1), (f"{word} 7", float(v)), (f"4 {word}", float(v)), (f"{word} 3 pack", float(v))):
+                ops = [{"op": "reset"}, rule, {"op": "exec", "lang": "en", "text": text}]
+                r = C.run_impl(ops + [{"op": "reset"}])[2]
+                l = r["lines"][0] if "lines" in r and r["lines"] else None
+                val = l.get("ok") if l and "ok" in l else None
+                got = O.f64(val["v"]) if val is not None and val.get("t") == "N" else None
+                ctx.count("multi-pattern-effects")
+                ctx.seen(("multi-pattern", C.json.dumps(pats), text), True)
+                if got != want:
+                    ctx.oracle_fail({"class": "effect:multi-pattern", "what": f"rule with patterns {pats} accepting only '{word}': '{text}' evaluates to {got if val is None or got is not None else val}, expected {want}",
+                                     "ops": ops + [{"op": "reset"}]})
 
 
 def mult(code):
